@@ -2,6 +2,5 @@ package props
 
 // NotApplicable lists the properties static analysis cannot decide, not even in part (DESIGN.md §5).
 var NotApplicable = [][2]string{
-	{"C10", "Overload resolution is performed by gogen at type-check time over runtime type sets; cl only registers the candidates, so nothing in /repo's source shape determines which candidate is chosen."},
 	{"C20", "Idempotence of the printer depends on line/column arithmetic over arbitrary inputs (layout decisions based on source positions); not a shape-of-code fact."},
 }
